@@ -258,7 +258,6 @@ def bcastRev : List Nat → List Nat → Option (List Nat)
 def refBroadcast (a b : Shape) : Option Shape := (bcastRev a.reverse b.reverse).map List.reverse
 
 def concatAt : Nat → Shape → Shape → Option Shape
-  | _, [], [] => some []
   | 0, a :: as, b :: bs => if as == bs then some ((a + b) :: as) else none
   | k + 1, a :: as, b :: bs => if a == b then (concatAt k as bs).map (a :: ·) else none
   | _, _, _ => none
@@ -481,40 +480,53 @@ def broadcastShapeK (a b : ShapeK) : Option ShapeK :=
 def transferUfunc2 (i j : SInfo) : Option SInfo :=
   (broadcastShapeK i.seen.shape j.seen.shape).map (fun k => ufuncInfo k .any)
 
-/-- `resolve_optype<shape_concatenate_t>` (concatenate.hpp) + decorator default fixed_size / bounded_size (sum over operands) -/
+/-- axis=None, operands not both of constant/clipped shape: `[size_a + size_b]`, constant when both sizes are -/
+def concatFlat : SizeK → SizeK → ShapeK
+  | .known x, .known y => .const [x + y]
+  | _, _ => .fixedDim 1
+
+/-- axis given, operands not both static: the result container follows the "least static" operand shape type -/
+def concatLen : LenK → LenK → ShapeK
+  | .dyn, _ => .dyn
+  | _, .dyn => .dyn
+  | .bounded n, _ => .boundedDim n
+  | _, .bounded n => .boundedDim n
+  | .fixed n, _ => .fixedDim n
+
+def concatFallback (ax : AxisK) (a b : SInfo) : ShapeK :=
+  match ax with
+  | .none => concatFlat a.size b.size
+  | _ => concatLen a.shape.lenK b.shape.lenK
+
+/-- the axis when it is a compile-time constant (or None) -/
+def AxisK.staticAxis? : AxisK → Option (Option Nat)
+  | .none => some Option.none
+  | .cts x => some (some x)
+  | _ => Option.none
+
+/-- `resolve_optype<shape_concatenate_t>` (concatenate.hpp); `a`, `b` = what the view sees of its operands -/
 def concatShapeK (ax : AxisK) (a b : SInfo) : Option ShapeK :=
-  let axv : Option (Option Nat) := match ax with | .none => some Option.none | .cts x => some (some x) | _ => Option.none
-  match a.shape.cvalue, b.shape.cvalue, axv with
+  match a.shape.cvalue, b.shape.cvalue, ax.staticAxis? with
   | some va, some vb, some axis =>
     (refConcat axis va vb).map (fun r =>
       if a.shape.isConst && b.shape.isConst then .const r else .clipped (r.map (fun x => if x == 0 then 1 else x)))
-  | _, _, _ =>
-    match ax with
-    | .none =>
-      (match a.size, b.size with
-       | .known x, .known y => some (.const [x + y])
-       | _, _ => some (.fixedDim 1))
-    | _ =>
-      match a.shape.lenK, b.shape.lenK with
-      | .dyn, _ => some .dyn
-      | _, .dyn => some .dyn
-      | .bounded n, _ => some (.boundedDim n)
-      | _, .bounded n => some (.boundedDim n)
-      | .fixed n, _ => some (.fixedDim n)
+  | _, _, _ => some (concatFallback ax a b)
+
+/-- decorator default fixed_size / bounded_size of a two-operand view: sums of the operands' OWN sizes (decorator.hpp:1111-1225) -/
+def sumSizeK : SizeK → SizeK → SizeK
+  | .known x, .known y => .known (x + y)
+  | .known x, .atMost y => .atMost (x + y)
+  | .atMost x, .known y => .atMost (x + y)
+  | .atMost x, .atMost y => .atMost (x + y)
+  | _, _ => .any
+
+def concatInfo (own1 own2 : SizeK) (d : ShapeK) : SInfo :=
+  ⟨d, match d with | .const l => .known (prod l) | _ => sumSizeK own1 own2⟩
 
 def transferConcat (ax : AxisK) (i j : SInfo) : Option SInfo :=
   match ax with
   | .ctt _ => none
   | .rt _ => none
-  | _ =>
-    (concatShapeK ax i.seen j.seen).map (fun d =>
-      ⟨d, match d with
-          | .const l => .known (prod l)
-          | _ => match i.size, j.size with
-            | .known x, .known y => .known (x + y)
-            | .known x, .atMost y => .atMost (x + y)
-            | .atMost x, .known y => .atMost (x + y)
-            | .atMost x, .atMost y => .atMost (x + y)
-            | _, _ => .any⟩)
+  | _ => (concatShapeK ax i.seen j.seen).map (concatInfo i.size j.size)
 
 end NmVerif.Static
